@@ -1,4 +1,6 @@
+import ImathVerif.Basic.Types
 import Mathlib.Algebra.Order.Field.Basic
+import Mathlib.Data.Fin.VecNotation
 import Mathlib.Algebra.BigOperators.Field
 import Mathlib.Algebra.Order.BigOperators.Ring.Finset
 /-!
@@ -10,6 +12,11 @@ src/Imath/ImathRandom.h that C18 talks about:
   loops (lines 234-292) with a fuel parameter; the generator is abstracted as a
   function `draw` from a generator state to (candidate, next state) — one pass
   of the `for (i < dimensions) v[i] = rand.nextf (-1, 1)` body.
+
+`loopGen` is the same loop written over a ONE-ITERATION STEP `candidate → accept result | retry`; the steps
+`Gen.C18.solidSphereN_iter / hollowSphereN_iter` are regenerated from ImathRandom.h on every run (harness/sym/ops_c18.h:
+the real templates instantiated with a scripted generator), and Props/C18Samplers.lean proves that the hand loops
+below are `loopGen` of those generated steps.
 
 These are statements about the real-number semantics.  The floating-point
 evaluation of the same expressions (one rounding per operation) is NOT modelled;
@@ -51,5 +58,24 @@ def gaussRandLoop (draw : σ → (K × K) × σ) : Nat → σ → Option ((K × 
     let r := draw s
     let l2 := r.1.1 * r.1.1 + r.1.2 * r.1.2
     if l2 ≥ 1 ∨ l2 = 0 then gaussRandLoop draw fuel r.2 else some r
+
+/-- `do { candidate = draw (); r = step candidate; } while (retry)` over a one-iteration step that answers
+`.ok result` (loop condition false: return) or `.error Exc.outOfRange` (loop condition true: the scripted
+generator of harness/sym/ops_c18.h was asked for a further candidate); any other error ends the run. -/
+def loopGen {β γ : Type} (step : β → Except Exc γ) (draw : σ → β × σ) : Nat → σ → Option (γ × σ)
+  | 0, _ => none
+  | fuel + 1, s =>
+    match step (draw s).1 with
+    | .ok r => some (r, (draw s).2)
+    | .error Exc.outOfRange => loopGen step draw fuel (draw s).2
+    | .error _ => none
+
+/-- `Vec2/3/4` as coordinate functions (the hand models are dimension-generic over `Fin n → K`) -/
+def fn2 {K : Type} (v : V2 K) : Fin 2 → K := ![v.x, v.y]
+def fn3 {K : Type} (v : V3 K) : Fin 3 → K := ![v.x, v.y, v.z]
+def fn4 {K : Type} (v : V4 K) : Fin 4 → K := ![v.x, v.y, v.z, v.w]
+def of2 {K : Type} (u : Fin 2 → K) : V2 K := ⟨u 0, u 1⟩
+def of3 {K : Type} (u : Fin 3 → K) : V3 K := ⟨u 0, u 1, u 2⟩
+def of4 {K : Type} (u : Fin 4 → K) : V4 K := ⟨u 0, u 1, u 2, u 3⟩
 
 end ImathVerif.Rand48.Field
